@@ -25,9 +25,11 @@ pub open spec fn v1_addresses_text(h: Seq<u8>, a: V1Addresses) -> Seq<u8> {
 }
 
 /// shape of a line with an accepting verdict (lemma_accept_shape)
-pub open spec fn v1_accept_shape(w: Seq<u8>, a: V1Addresses) -> bool {
+pub open spec fn v1_accept_shape(w: Seq<u8>, a: V1Addresses) -> bool { v1_accept_shape0(w, a) && w.len() <= 107 }
+/// the shape without the length limit (what the accessors and C04 / C15 rely on)
+pub open spec fn v1_accept_shape0(w: Seq<u8>, a: V1Addresses) -> bool {
     let p = v1_protocol_bytes(a);
-    w.len() >= 6 + p.len() + 2 && w.len() <= 107
+    w.len() >= 6 + p.len() + 2
     && w.subrange(0, 5) =~= b_proxy() && is_sep(w[5])
     && w.subrange(6, 6 + p.len() as int) =~= p && is_sep(w[6 + p.len() as int])
     && is_suffix_of(b_crlf(), w)
@@ -45,7 +47,7 @@ pub open spec fn v1_header_safe(h: V1Header) -> bool {
 /// or the CR of the CRLF, ..., CRLF
 pub open spec fn v1_header_wf(h: V1Header) -> bool {
     let s = cow_str_bytes(h.header);
-    v1_accept_shape(s, h.addresses) && s[5] == 32u8 && first_index_of(s, 13u8) + 2 == s.len()
+    v1_accept_shape0(s, h.addresses) && s[5] == 32u8 && first_index_of(s, 13u8) + 2 == s.len()
 }
 
 pub open spec fn v1_err_incomplete(e: V1Error) -> bool {
